@@ -883,6 +883,8 @@ func (c *Ctx) packerUsesAnyField(f *ssa.Function) bool {
 func (c *Ctx) checkCountingStore() {
 	r := c.R
 	n := 0
+	counterFields := map[*types.Var]bool{}
+	cbRoots := map[ssa.Value]bool{}
 	for _, fn := range c.G.Funcs() {
 		rel, ok := c.P.PkgOf(fn)
 		if !ok || rel != "data/builder" {
@@ -898,9 +900,11 @@ func (c *Ctx) checkCountingStore() {
 				if bo, ok := fs.st.Val.(*ssa.BinOp); ok && bo.Op == token.ADD {
 					if lx, ok := lenOf(bo.Y); ok && lx == ssa.Value(p) {
 						adds = true
+						counterFields[fs.field] = true
 					}
 					if lx, ok := lenOf(bo.X); ok && lx == ssa.Value(p) {
 						adds = true
+						counterFields[fs.field] = true
 					}
 				}
 			}
@@ -953,8 +957,85 @@ func (c *Ctx) checkCountingStore() {
 			return trueMeansNil, true
 		})
 		r.Check(good, "R11.4", key, c.P.Pos(cbCall.Pos()), "the byte count is reported only after the encoder returned nil", "the byte count callback is not guarded by the encoder's success")
+		if root := cellRoot(cbCall.Call.Value); root != nil {
+			cbRoots[root] = true
+		}
 	}
-	r.Floor("R11.4", n, 2)
+	// every call through the count callback, wherever it sits, reports the counting writer's own count
+	nCb := 0
+	for _, fn := range c.G.Funcs() {
+		rel, ok := c.P.PkgOf(fn)
+		if !ok || rel != "data/builder" || fn.Synthetic != "" {
+			continue
+		}
+		k := 0
+		for _, ci := range core.CallsIn(fn) {
+			call, ok := ci.(*ssa.Call)
+			if !ok || call.Call.IsInvoke() || call.Call.StaticCallee() != nil || len(call.Call.Args) != 1 {
+				continue
+			}
+			root := cellRoot(call.Call.Value)
+			if root == nil || !cbRoots[root] {
+				continue
+			}
+			k++
+			nCb++
+			key := fmt.Sprintf("%s/count-is-counter#%d", core.FuncName(fn), k)
+			good := false
+			if u, ok := call.Call.Args[0].(*ssa.UnOp); ok && u.Op == token.MUL {
+				if fa, ok := u.X.(*ssa.FieldAddr); ok {
+					if st, ok := fa.X.Type().Underlying().(*types.Pointer).Elem().Underlying().(*types.Struct); ok && counterFields[st.Field(fa.Field)] {
+						good = true
+					}
+				}
+			}
+			r.Check(good, "R11.4", key, c.P.Pos(call.Pos()), "the reported count is the counting writer's counter field", "the count callback is called with a value that is not the counting writer's counter (the stored block's byte count is misreported)")
+		}
+	}
+	r.Floor("R11.4", n+nCb, 3)
+}
+
+// cellRoot maps the callee value of a call through a captured function variable (a load of a cell or of a free variable,
+// through any depth of closure nesting) to the cell allocated in the outermost function.
+func cellRoot(v ssa.Value) ssa.Value {
+	u, ok := v.(*ssa.UnOp)
+	if !ok || u.Op != token.MUL {
+		return nil
+	}
+	p := u.X
+	for i := 0; i < 6; i++ {
+		switch a := p.(type) {
+		case *ssa.Alloc:
+			return a
+		case *ssa.FreeVar:
+			cl := a.Parent()
+			idx := -1
+			for k, fv := range cl.FreeVars {
+				if fv == a {
+					idx = k
+				}
+			}
+			par := cl.Parent()
+			if par == nil || idx < 0 {
+				return nil
+			}
+			var next ssa.Value
+			for _, b := range par.Blocks {
+				for _, ins := range b.Instrs {
+					if mc, ok := ins.(*ssa.MakeClosure); ok && mc.Fn == ssa.Value(cl) && idx < len(mc.Bindings) {
+						next = mc.Bindings[idx]
+					}
+				}
+			}
+			if next == nil {
+				return nil
+			}
+			p = next
+		default:
+			return nil
+		}
+	}
+	return nil
 }
 
 // resolveLocal follows a value through a captured or local single-assignment cell: a closure's free variable is traced to
